@@ -9,7 +9,7 @@ from pyvc.engine import KwDict, SClass
 from pyvc.values import SBool, SMaybe, SStr, SVal, Unsupported, as_bool, fresh_name
 
 from . import hashing, record
-from .common_io import BytesVal, PathVal, path_term
+from .common_io import DISK, BytesVal, PathVal, path_term
 from .record import ALLOC0, Ref, ub_copy
 
 # manifest extension of a user block (stored inside ub_exts["ih5mf_v01"]) as ghost fields of the user block
@@ -55,6 +55,15 @@ def mf_bytes(cx, mf):
 class ExtObj(SVal):
     def __init__(self, is_stub, uuid, hs):
         self.is_stub, self.uuid, self.hs = is_stub, uuid, hs
+
+    def py_getattr(self, cx, name):
+        return {"is_stub_container": self.is_stub, "manifest_uuid": self.uuid, "manifest_hashsum": self.hs}[name]
+
+    def py_is_none(self, cx):
+        return False
+
+    def py_truth(self, cx):
+        return True
 
     def meth_update(self, cx, ub):
         ub.py_setattr(cx, "ext_present", True)
@@ -140,6 +149,303 @@ class MFCommit(FnSpec):
         return out
 
 
+# ---- IH5MFRecord._open: the manifest clause of C04 ----------------------------------------------------
+
+IS_FILE = z3.Function("is_regular_file", S, z3.BoolSort())
+SUPER_REJECTS = z3.Bool("IH5Record_open_rejects_the_file_set")
+
+
+class MFPath(PathVal):
+    def meth_is_file(self, cx):
+        return SBool(IS_FILE(self.t))
+
+
+class ExtClass(SVal):
+    """IH5UBExtManifest as far as _open / _check_ublock / merge use it: get(ub) reads the extension section of the user block"""
+
+    def meth_get(self, cx, ub):
+        if getattr(cx, "elem", None) is not None:
+            return ExtOpt(ub)  # generic element of a quantified predicate: no forks
+        if cx.decide(ub.py_getattr(cx, "ext_present").t):
+            return ExtObj(ub.py_getattr(cx, "ext_stub"), ub.py_getattr(cx, "ext_uuid"), ub.py_getattr(cx, "ext_hash"))
+        return None
+
+    def meth_ext_name(self, cx):
+        return "ih5mf_v01"
+
+    def py_call(self, cx, *a, **kw):
+        return ExtObj(kw.get("is_stub_container", False), kw.get("manifest_uuid"), kw.get("manifest_hashsum"))
+
+
+class ExtOpt(SVal):
+    """Optional[IH5UBExtManifest] read from a user block, usable inside quantified predicates (no forks)"""
+
+    def __init__(self, ub):
+        self.ub = ub
+
+    def py_is_none(self, cx):
+        return z3.Not(self.ub.py_getattr(cx, "ext_present").t)
+
+    def py_truth(self, cx):
+        return self.ub.py_getattr(cx, "ext_present").t
+
+    def py_getattr(self, cx, name):
+        cx.decide_or_fail(self.ub.py_getattr(cx, "ext_present").t, "AttributeError", "None has no attributes")
+        return self.ub.py_getattr(cx, {"is_stub_container": "ext_stub", "manifest_uuid": "ext_uuid", "manifest_hashsum": "ext_hash"}[name])
+
+
+class ManifestClass(SVal):
+    def meth_parse_file(self, cx, path):
+        cx.effect("mf-parse", path_term(path))
+        mf = ManifestObj("IH5Manifest", name="parsed_manifest")
+        mf.fields["manifest_uuid"] = SStr(z3.String(fresh_name("parsed_manifest_uuid")))
+        mf.fields["manifest_exts"] = ExtsVal(z3.Const(fresh_name("parsed_exts"), Exts))
+        mf.parsed_from = path_term(path)
+        mf.fields["user_block"] = SRef.fresh("IH5UserBlock", "manifest_user_block")
+        cx.assume(z3.Not(ALLOC0(mf.fields["user_block"].t)))  # parsed just now: a new object
+        cx.ghost.setdefault("fresh_ubs", []).append(mf.fields["user_block"])
+        mf.fields["skeleton"] = SVal()
+        cx.ghost["parsed_manifest"] = mf
+        return mf
+
+
+def super_open(cx, clsobj, paths, **kw):
+    if "manifest_file" in kw:
+        raise Unsupported("manifest_file must not reach IH5Record._open")
+    cx.effect("super-open", paths)
+    if cx.decide(SUPER_REJECTS):
+        cx.py_raise("ValueError", "rejected by IH5Record._open")
+    r = record.rec_obj(cx, "ret", "IH5MFRecord")
+    cx.assume(record.files_of(r).n > 0)  # an opened record has at least one container (C04 contract of IH5Record._open)
+    cx.assume(record.rec_inv(cx, r, "opened"))
+    r.fields["_manifest"] = None  # class default
+    cx.ghost["opened"] = r
+    return r
+
+
+class MFOpen(FnSpec):
+    file = "ih5/manifest.py"
+    qual = "IH5MFRecord._open"
+    props = ("C04", "C10")
+
+    def init(self):
+        self.inline |= {"IH5Record._ublock"}
+        self.bindings["IH5UBExtManifest"] = ExtClass()
+        self.bindings["IH5Manifest"] = ManifestClass()
+        self.bindings["bytes"] = mf_bytes
+        self.bindings["h5py"] = record.H5pyModule()
+        self.bindings["Path"] = record.path_ctor
+
+    def setup(self, cx):
+        given = cx.choose(2) == 1
+        kw = {"manifest_file": MFPath(z3.String("given_manifest_file"))} if given else {}
+        paths = SVal()
+        a = A(cls=SClass("IH5MFRecord"), paths=paths, __kwargs__=kw, given=given)
+        return a
+
+    def _cond(self, cx, a):
+        """(extension present, manifest path, manifest acceptable) for the newest container of the opened record"""
+        r = cx.ghost.get("opened")
+        if r is None:
+            return None
+        n = record.files_of(r).n
+        ub, fn = record.ub_ref_at(cx, r, n - 1)
+        g = lambda f: ub.py_getattr(cx, f)  # noqa: E731
+        mfp = z3.String("given_manifest_file") if a.given else MFPATH(fn)
+        alg = z3.StringVal(hashing.def_alg(cx))
+        good = z3.And(IS_FILE(mfp), g("ext_hash").t == z3.Concat(alg, z3.StringVal(":"), hashing.HEX(alg, DISK(mfp))))
+        return g("ext_present").t, mfp, good
+
+    def raises(self, cx, a):
+        # the exact condition is phrased over the record IH5Record._open returns (ghost state): see on_raise / ensures
+        return {"ValueError": z3.BoolVal(True)}
+
+    raises_exact = False
+
+    def on_raise(self, cx, a, exc):
+        c = self._cond(cx, a)
+        if exc.cls != "ValueError":
+            return [("only-ValueError", z3.BoolVal(False), "a file set that is not a valid record is refused with ValueError")]
+        writes = [e for e in cx.fx if e[0] in record.WRITE_KINDS]
+        why = SUPER_REJECTS if c is None else z3.And(c[0], z3.Not(c[2]))
+        return [
+            ("refusal-justified", why, "opening fails only if the containers are not a valid chain, or the newest container names a manifest that is missing or whose bytes do not hash to the recorded value"),
+            ("opening-writes-nothing", z3.BoolVal(not writes), "opening never alters files"),
+        ]
+
+    def ensures(self, cx, a, res):
+        c = self._cond(cx, a)
+        r = cx.ghost.get("opened")
+        if c is None or res is not r:
+            return [("returns-the-opened-record", z3.BoolVal(False), "the record opened by IH5Record._open is returned")]
+        present, mfp, good = c
+        mf = r.fields.get("_manifest")
+        parses = [e for e in cx.fx if e[0] == "mf-parse"]
+        writes = [e for e in cx.fx if e[0] in record.WRITE_KINDS]
+        loaded = isinstance(mf, ManifestObj) and len(parses) == 1
+        return [
+            ("containers-accepted-by-IH5Record-open", z3.Not(SUPER_REJECTS), "the container chain itself passed all C04 checks"),
+            ("linked-manifest-exists-and-matches-its-hash", z3.Implies(present, good), "a manifest that is missing or edited (any byte) makes opening fail"),
+            ("manifest-loaded-iff-linked", z3.BoolVal(loaded) == present, "the manifest of the newest container is loaded exactly when the container links one"),
+            ("loaded-manifest-is-the-checked-file", (parses[0][1] == mfp) if loaded else z3.Not(present), "the manifest parsed is the file whose hash was checked"),
+            ("opening-writes-nothing", z3.BoolVal(not writes), "opening never alters files"),
+        ]
+
+
+class MFCheckUblock(FnSpec):
+    file = "ih5/manifest.py"
+    qual = "IH5MFRecord._check_ublock"
+    props = ("C04", "C10")
+
+    def init(self):
+        self.bindings["IH5UBExtManifest"] = ExtClass()
+
+    def setup(self, cx):
+        r = record.rec_obj(cx, "self", "IH5MFRecord")
+        ub = SRef.fresh("IH5UserBlock", "ub")
+        has_prev = z3.Bool("has_prev")
+        prev = SMaybe(z3.Not(has_prev), SRef.fresh("IH5UserBlock", "prev"))
+        return A(self=r, filename=PathVal(z3.String("filename")), ub=ub, prev=prev, check_hashsum=SBool(z3.Bool("check_hashsum")), has_prev=has_prev)
+
+    def raises(self, cx, a):
+        g = lambda f: a.ub.py_getattr(cx, f).t  # noqa: E731
+        return {"ValueError": SUPER_CHECK_REJECTS, "AssertionError": z3.And(z3.Not(SUPER_CHECK_REJECTS), a.has_prev, g("ext_present"), g("ext_stub"))}
+
+    def ensures(self, cx, a, res):
+        calls = [e for e in cx.fx if e[0] == "super-check"]
+        ok = len(calls) == 1 and calls[0][1] is a.filename and calls[0][2] is a.ub and calls[0][3] is a.prev and calls[0][4] is a.check_hashsum
+        g = lambda f: a.ub.py_getattr(cx, f).t  # noqa: E731
+        return [
+            ("all-record-level-checks-applied", z3.BoolVal(ok), "every check of IH5Record._check_ublock applies, with the same arguments"),
+            ("stub-only-as-base", z3.Not(z3.And(a.has_prev, g("ext_present"), g("ext_stub"))), "only the base container of a chain may be a stub"),
+        ]
+
+
+SUPER_CHECK_REJECTS = z3.Bool("IH5Record_check_ublock_rejects")
+
+
+def super_check(cx, rec, filename, ub, prev=None, check_hashsum=True):
+    cx.effect("super-check", filename, ub, prev, check_hashsum)
+    if cx.decide(SUPER_CHECK_REJECTS):
+        cx.py_raise("ValueError", "rejected by IH5Record._check_ublock")
+
+
+class MFMerge(FnSpec):
+    file = "ih5/manifest.py"
+    qual = "IH5MFRecord.merge_files"
+    props = ("C10", "C05")
+
+    def init(self):
+        self.bindings["IH5UBExtManifest"] = ExtClass()
+
+    def setup(self, cx):
+        r = record.rec_obj(cx, "self", "IH5MFRecord")
+        return A(self=r, target=PathVal(z3.String("target")))
+
+    def requires(self, cx, a):
+        return [("RecInv", record.rec_inv(cx, a.self, "pre"))]
+
+    def _has_stub(self, cx, a):
+        j = z3.Int(fresh_name("sj"))
+        ub, _ = record.ub_ref_at(cx, a.self, j)
+        return z3.Exists([j], z3.And(0 <= j, j < record.files_of(a.self).n, ub.py_getattr(cx, "ext_present").t, ub.py_getattr(cx, "ext_stub").t))
+
+    def raises(self, cx, a):
+        return {"ValueError": z3.Or(self._has_stub(cx, a), SUPER_MERGE_REFUSES)}
+
+    def on_raise(self, cx, a, exc):
+        calls = [e for e in cx.fx if e[0] == "super-merge"]
+        return [("stub-refused-before-anything-happens", z3.Implies(self._has_stub(cx, a), z3.BoolVal(not calls)), "a record containing a stub cannot be merged: nothing is created")]
+
+    def ensures(self, cx, a, res):
+        calls = [e for e in cx.fx if e[0] == "super-merge"]
+        return [
+            ("no-stub-in-the-chain", z3.Not(self._has_stub(cx, a)), "a stub cannot be merged"),
+            ("merge-is-the-record-level-merge", z3.BoolVal(len(calls) == 1 and calls[0][1] is a.target and res == "merged-path"), "otherwise the merge is IH5Record.merge_files (C05 contract) for the same target, and its result is returned"),
+        ]
+
+
+SUPER_MERGE_REFUSES = z3.Bool("IH5Record_merge_refuses")
+
+
+def super_merge(cx, rec, target):
+    cx.effect("super-merge", target)
+    if cx.decide(SUPER_MERGE_REFUSES):
+        cx.py_raise("ValueError", "refused by IH5Record.merge_files")
+    return "merged-path"
+
+
+def ih5_meta_of(cx, rec):
+    """rec.ih5_meta: the user blocks in container order (copies; only read here)"""
+    L = record.files_of(rec)
+    j = z3.Int(fresh_name("mj"))
+    ub, _ = record.ub_ref_at(cx, rec, j)
+    out = SSeq.fresh(TRef("IH5UserBlock"), "ih5_meta")
+    cx.assume(z3.And(out.n == L.n, z3.ForAll([j], z3.Implies(z3.And(0 <= j, j < L.n), out.at_term(j) == ub.t))))
+    return out
+
+
+class CreateStub(FnSpec):
+    file = "ih5/manifest.py"
+    qual = "IH5MFRecord.create_stub"
+    props = ("C10",)
+
+    def init(self):
+        self.bindings["IH5UBExtManifest"] = ExtClass()
+        self.bindings["IH5Manifest"] = ManifestClass()
+        self.bindings["Path"] = record.path_ctor
+        self.bindings["init_stub_base"] = lambda cx, ds, ub, skel: cx.effect("init-stub-base", ds, ub, skel)
+        self.bindings["IH5MFRecord"] = SClass("IH5MFRecord")
+
+    def setup(self, cx):
+        return A(cls=SClass("IH5MFRecord"), record=PathVal(z3.String("stub_record_path")), manifest_file=MFPath(z3.String("manifest_file")))
+
+    def ensures(self, cx, a, res):
+        fx = cx.fx
+        kinds = [e[0] for e in fx]
+        want = ["mf-parse", "open-read", "stub-create", "init-stub-base", "stub-commit"]
+        if kinds != want:
+            return [("protocol", z3.BoolVal(False), "parse the manifest, hash it, create the container, initialise structure and user block, commit as stub")]
+        parse, hread, create, init, commit = fx
+        mf = cx.ghost["parsed_manifest"]
+        ds = create[2]
+        ub = init[2]
+        g = lambda f: ub.py_getattr(cx, f)  # noqa: E731
+        src = mf.fields["user_block"]
+        alg = z3.StringVal(hashing.def_alg(cx))
+        same_fields = z3.And(*[as_bool(cx, V_eq(cx, g(f), src.py_getattr(cx, f))) for f in ("record_uuid", "patch_uuid", "patch_index", "hdf5_hashsum")])
+        return [
+            ("manifest-read-from-the-given-file", z3.And(parse[1] == a.manifest_file.t, hread[1] == a.manifest_file.t), "the stub is built from the given manifest file"),
+            ("container-created-at-the-given-path", create[1] == a.record.t, "a new record is created at the given path (exclusive create)"),
+            ("structure-from-the-manifest-skeleton", z3.BoolVal(init[1] is ds and init[3] is mf.fields["skeleton"]), "the stub gets the skeleton stored in the manifest"),
+            ("user-block-is-a-copy-of-the-real-one", z3.And(z3.BoolVal(ub is not src), ub.t != src.t, same_fields), "the stub carries the real newest container's identity (record uuid, patch uuid, patch index, hash) on a copy of the user block"),
+            ("marked-as-stub-linked-to-this-manifest", z3.And(g("ext_present").t, g("ext_stub").t, g("ext_uuid").t == mf.fields["manifest_uuid"].t, g("ext_hash").t == z3.Concat(alg, z3.StringVal(":"), hashing.HEX(alg, DISK(a.manifest_file.t)))), "the stub is marked as stub and links the manifest by uuid and by the hash of the manifest file's bytes"),
+            ("committed-as-stub-with-the-manifests-extensions", z3.BoolVal(commit[1] is ds and commit[2] is True and commit[3] is mf.fields["manifest_exts"]), "manifest extensions persist into the stub's own manifest"),
+            ("returns-the-committed-stub", z3.BoolVal(res is ds), "the read-only stub record is returned"),
+        ]
+
+
+def V_eq(cx, x, y):
+    from pyvc.values import v_eq
+
+    return v_eq(cx, x, y)
+
+
+def stub_create(cx, clsobj, path):
+    ds = record.rec_obj(cx, "stub", "IH5MFRecord")
+    ds.committed = False
+    cx.effect("stub-create", path_term(path), ds)
+    return ds
+
+
+def stub_commit(cx, ds, **kw):
+    extra = set(kw) - {"__is_stub__", "manifest_exts"}
+    if extra:
+        raise Unsupported(f"commit_patch called with {extra}")
+    cx.effect("stub-commit", ds, kw.get("__is_stub__", False), kw.get("manifest_exts"))
+    ds.committed = True
+
+
 def add_manifest(reg):
     reg.set_class_home("IH5MFRecord", "ih5/manifest.py")
     reg.attr_bindings[("IH5Record", "_files")] = lambda cx, o: record.files_of(o)
@@ -165,9 +471,16 @@ def add_manifest(reg):
     reg.method_bindings[("IH5MFRecord", "_fresh_manifest")] = fresh_manifest
     reg.method_bindings[("IH5MFRecord", "super.commit_patch")] = super_commit
     reg.method_bindings[("IH5Manifest", "save")] = mf_save
-    reg.method_bindings[("IH5MFRecord", "_manifest_filepath")] = lambda cx, rec, fn: PathVal(MFPATH(fn.t if isinstance(fn, SStr) else path_term(fn)))
+    reg.method_bindings[("IH5MFRecord", "_manifest_filepath")] = lambda cx, rec, fn: MFPath(MFPATH(fn.t if isinstance(fn, SStr) else path_term(fn)))
     hashing.add_all(reg)
-    specs = [MFCommit()]
+    reg.method_bindings[("IH5MFRecord", "super._open")] = super_open
+    reg.method_bindings[("IH5MFRecord", "super._check_ublock")] = super_check
+    reg.method_bindings[("IH5MFRecord", "super.merge_files")] = super_merge
+    reg.attr_bindings[("IH5MFRecord", "ih5_meta")] = ih5_meta_of
+    reg.method_bindings[("IH5MFRecord", "_create")] = stub_create
+    reg.method_bindings[("IH5MFRecord", "commit_patch")] = stub_commit
+    reg.attr_bindings[("IH5MFRecord", "_has_writable")] = lambda cx, o: SBool(z3.BoolVal(not getattr(o, "committed", False)))
+    specs = [MFCommit(), MFOpen(), MFCheckUblock(), MFMerge(), CreateStub()]
     for s in specs:
         reg.add(s)
     return specs
